@@ -19,6 +19,7 @@ from collections import Counter
 
 HERE = os.path.dirname(os.path.dirname(os.path.abspath(__file__)))
 REPO = os.environ.get("FSVERIF_REPO", "/repo")
+OUT = os.environ.get("FSVERIF_OUT", HERE)  # evidence/replays root (selftest redirects it)
 PY = sys.executable
 
 
@@ -156,13 +157,13 @@ def run_property(prop: str, tier: str) -> int:
         problems.append("no worker results")
 
     wall = time.time() - t0
-    os.makedirs(os.path.join(HERE, "evidence"), exist_ok=True)
-    os.makedirs(os.path.join(HERE, "replays"), exist_ok=True)
+    os.makedirs(os.path.join(OUT, "evidence"), exist_ok=True)
+    os.makedirs(os.path.join(OUT, "replays"), exist_ok=True)
 
     lines = []
     for i, w in enumerate(violations):
         rp = os.path.join("replays", f"{prop}-{seed}-{i}.json")
-        with open(os.path.join(HERE, rp), "w") as f:
+        with open(os.path.join(OUT, rp), "w") as f:
             json.dump({"property": prop, "tier": tier, "seed": seed, "key": w["key"], "detail": w["detail"],
                        "case": w["case"], "extra": w.get("extra")}, f, indent=1)
         lines.append(f"VIOLATION property={prop} replay={rp}")
@@ -197,7 +198,7 @@ def run_property(prop: str, tier: str) -> int:
             "wall_s": round(wall, 2),
             "violations": len(violations),
         }
-        with open(os.path.join(HERE, "evidence", f"{prop}.json"), "w") as f:
+        with open(os.path.join(OUT, "evidence", f"{prop}.json"), "w") as f:
             json.dump(ev, f, indent=1, sort_keys=False, default=repr)
 
     for ln in lines:
